@@ -381,7 +381,75 @@ func execC10Order(a []string) string {
 	return c10OrderAnswer(recv)
 }
 
+// c10.full <n> <capB>: one writer sends ids 1..n; handler 0 selects everything and has room for all,
+// handler 1 selects everything, has room for capB and is never drained, handler 2 selects the even
+// actions.  A handler with room must get its subsequence, each message intact and once, whatever
+// happens to the handler without room.
+var c10FullDetail string
+
+func execC10Full(a []string) string {
+	log.SetOutput(ioutil.Discard)
+	n, _ := strconv.Atoi(a[0])
+	capB, _ := strconv.Atoi(a[1])
+	x, y := gonet.Pipe()
+	caps := []int{n + 8, capB, n + 8}
+	sel := []func(h *qnet.Header) bool{
+		func(h *qnet.Header) bool { return true },
+		func(h *qnet.Header) bool { return true },
+		func(h *qnet.Header) bool { return h.Action%2 == 0 },
+	}
+	queues := make([]chan *qnet.Message, 3)
+	ep := qnet.EndPointFinalizer(qnet.ConnStream(x), func(e qnet.EndPoint) {
+		for i := range queues {
+			f := sel[i]
+			queues[i] = make(chan *qnet.Message, caps[i])
+			e.MakeHandler(func(h *qnet.Header) (bool, bool) { return f(h), true }, queues[i], func(error) {})
+		}
+	})
+	defer ep.Close()
+	defer y.Close()
+	go func() {
+		for id := 1; id <= n; id++ {
+			m := qnet.NewMessage(qnet.NewHeader(qnet.Event, 1, 1, uint32(id%11), uint32(id)), c10Payload(uint32(id), 16+id%50))
+			if m.Write(y) != nil {
+				return
+			}
+		}
+	}()
+	c10FullDetail = ""
+	recv := make([][]uint32, 3)
+	seen := map[*qnet.Message]bool{}
+	check := func(q int, m *qnet.Message) {
+		recv[q] = append(recv[q], m.Header.ID)
+		if !bytes.Equal(m.Payload, c10Payload(m.Header.ID, 16+int(m.Header.ID)%50)) && c10FullDetail == "" {
+			c10FullDetail = fmt.Sprintf("handler %d: message %d does not carry its payload", q, m.Header.ID)
+		}
+		if q == 0 {
+			if seen[m] && c10FullDetail == "" {
+				c10FullDetail = fmt.Sprintf("handler 0 was given the same message object twice (id %d)", m.Header.ID)
+			}
+			seen[m] = true
+		}
+	}
+	for len(recv[0]) < n {
+		select {
+		case m := <-queues[0]:
+			check(0, m)
+		case <-time.After(5 * time.Second):
+			return "timeout " + fmt.Sprintf("h0=[%s]", fmtIDs(recv[0]))
+		}
+	}
+	time.Sleep(20 * time.Millisecond)
+	for q := 1; q < 3; q++ {
+		for len(queues[q]) > 0 {
+			check(q, <-queues[q])
+		}
+	}
+	return c10OrderAnswer(recv)
+}
+
 func init() {
+	executors["c10.full"] = execC10Full
 	executors["c10.run"] = func(a []string) string {
 		if len(a) != 5 {
 			return "bad-op"
@@ -403,6 +471,21 @@ func init() {
 var lastC10 c10Result
 
 func runC10(r *Rand, tier string, o *Out) {
+	// a handler without room next to handlers with room
+	nf := 6
+	if tier == "thorough" {
+		nf = 40
+	}
+	for i := 0; i < nf; i++ {
+		n := 2 + r.Intn(60)
+		capB := 1 + r.Intn(4)
+		line := fmt.Sprintf("c10.full %d %d", n, capB)
+		o.Do("P", line, true)
+		o.Count("full-queue scenarios")
+		if c10FullDetail != "" {
+			o.Fail("a handler with room does not get each selected message intact and once", line+": "+c10FullDetail)
+		}
+	}
 	transports := []string{"mem", "unix", "tcp", "tcps", "pipe"}
 	rounds := 40
 	if tier == "thorough" {
